@@ -150,24 +150,40 @@ def lock_proto(repo, res):
 
     # ---- clause 3: load only after marker; bounded wait ending in raise -------------------------
     exists_tests = []
-    for n in cfg.nodes:
-        if n.kind == "test" and n.ast is not None and n.label != "for-head":
-            for c in calls_in(n.ast):
-                nm = call_name(c) or ""
-                if (nm.endswith("exists") or nm.endswith("is_file")):
-                    arg = c.args[0] if c.args else (c.func.value if isinstance(c.func, ast.Attribute) else None)
-                    if arg is not None and _is_marker_path(sl, arg):
-                        exists_tests.append(n)
-    if not exists_tests:
-        raise AnalysisError("LOCK-PROTO: no exists(<ready marker>) test in get_cached_module")
+
+    def is_marker_exists(c):
+        nm = call_name(c) or ""
+        if not (nm.endswith("exists") or nm.endswith("is_file")):
+            return False
+        arg = c.args[0] if c.args else (c.func.value if isinstance(c.func, ast.Attribute) else None)
+        return arg is not None and _is_marker_path(sl, arg)
+
+    def implied(test, positive=True):
+        """Does `test` being true (positive) / false imply that the marker exists?"""
+        if isinstance(test, ast.Call):
+            return positive and is_marker_exists(test)
+        if isinstance(test, ast.UnaryOp) and isinstance(test.op, ast.Not):
+            return implied(test.operand, not positive)
+        if isinstance(test, ast.BoolOp):
+            if isinstance(test.op, ast.And) and positive:
+                return any(implied(v, True) for v in test.values)
+            if isinstance(test.op, ast.Or) and not positive:
+                return any(implied(v, False) for v in test.values)
+        return False
+
+    mentions = 0
     true_entries = set()
-    for t in exists_tests:
-        st = cfg.if_stmt.get(t.id)
-        # the test must be the positive form: `if exists(marker):` (not negated)
-        if st is not None and isinstance(st.test, ast.UnaryOp) and isinstance(st.test.op, ast.Not):
-            true_entries |= cfg.if_false.get(t.id, set())
-        else:
-            true_entries |= cfg.if_true.get(t.id, set())
+    for n in cfg.nodes:
+        if n.kind == "test" and n.ast is not None and n.label != "for-head" and n.id in cfg.if_stmt:
+            if any(is_marker_exists(c) for c in calls_in(n.ast)):
+                mentions += 1
+                exists_tests.append(n)
+                if implied(n.ast, True):
+                    true_entries |= cfg.if_true.get(n.id, set())
+                if implied(n.ast, False):
+                    true_entries |= cfg.if_false.get(n.id, set())
+    if not mentions:
+        raise AnalysisError("LOCK-PROTO: no exists(<ready marker>) test in get_cached_module")
     loaders = _calls_named(gcm.node, ["module_from_spec", "exec_module", "import_module", "getattr"])
     for c in loaders:
         nm = call_name(c)
@@ -193,18 +209,28 @@ def lock_proto(repo, res):
     res.ob(k)
     if not wait_loops:
         res.fail(k, "the marker test is not inside a polling loop", m.line(gcm.node))
+    raise_stmts = {n.id for n in cfg.nodes if isinstance(n.ast, ast.Raise)}
     for lp in wait_loops:
         if isinstance(lp, ast.While) and isinstance(lp.test, ast.Constant) and lp.test.value:
-            has_raise = any(isinstance(x, ast.Raise) for x in ast.walk(lp))
-            if not has_raise:
+            inner = {n.id for n in cfg.nodes if isinstance(n.ast, ast.Raise) and any(n.ast is x for x in ast.walk(lp))}
+            live = inner & cfg.reachable(cfg.entry.id, blocked=true_entries)
+            if not live:
                 res.fail(k, "unbounded `while True` wait for the ready marker: a killed builder makes "
                          "every later request hang instead of raising within the timeout", m.line(lp))
         if isinstance(lp, ast.For):
             it = ast.unparse(lp.iter)
-            if "timeout" not in sl.names(lp.iter) :
+            if "timeout" not in sl.names(lp.iter):
                 res.fail(k, f"wait loop bound `{it}` does not derive from the `timeout` argument", m.line(lp))
-            if lp.orelse == [] :
-                pass
+    # when the marker never appears the function must end in an explicit raise
+    k = f"{gcm.key}:timeout-raises"
+    res.ob(k)
+    no_marker = cfg.reachable(cfg.entry.id, blocked=true_entries | {lock_node.id}) | set()
+    handler_side = set()
+    for y, kd in cfg.succ[lock_node.id]:
+        if kd == "e":
+            handler_side |= cfg.reachable(y, blocked=true_entries)
+    if not (raise_stmts & handler_side):
+        res.fail(k, "no explicit raise on the path where the lock exists but the marker never appears", m.line(gcm.node))
 
     # ---- clause 2: marker after build (in _compile_objects) -----------------------------------
     co = m.func("_compile_objects")
